@@ -19,6 +19,20 @@ The fragment (everything else raises Untranslatable -> the target becomes an alw
                calls of helper functions / static methods of the same module or class (translated on demand into local functions
                of the generated definition; parameters whose annotation has no type here, e.g. the path quoted in error
                messages, are opaque: the helper must not compute with them)
+               tuples with starred elements and `tuple(l)` where the length of the list is known from an enclosing / preceding
+               `len(l) == k` guard (otherwise the static type of the tuple is unknown: refused), `[*l, x]`, `l[i]` for a literal i
+               (IndexError), `x if c else y` (only the chosen operand is evaluated), `len(l) in (3, 4)`, `any(...)` / `all(...)` of a
+               pure condition over a list of str, truth value of a str / list / optional tuple as a condition, `T | None` of a
+               tuple type (a helper that returns None for "malformed")
+  discovery    nothing private is found by its name alone: `_parse_decimal` is the one function (str) -> int in the call graph of
+               the constructor; the path of the file relative to the root is the local assigned `<root>.name /
+               <file>.relative_to(<root>)`; the result attributes are the ones behind the properties full_name / version /
+               fixed_port_id (and name_components / full_name of CompositeType); parameters keep their source names; an
+               attribute that is only initialised to None and never read in the slice is left out; constructor guards are also
+               collected from `self._m()` methods called by the constructor, and their number is not prescribed (the bridge
+               theorem characterises what they accept together)
+  flow facts   after `if x is None: raise/return` (or its mirror image) x is known not to be None; inside / after a guard on
+               `len(l)` the length is known
   statements   (annotated) assignment to a local or to `self._x`, tuple unpacking of a list of str (a ValueError unless the
                length fits, as in Python), if / elif / else (a variable first assigned inside a branch must be assigned on every
                path that falls through: definite assignment is checked), `raise C(...) [from None]` (C resolved through the
@@ -56,7 +70,22 @@ def untup(t: str) -> typing.Optional[typing.List[str]]:
     return t[4:-1].split(";") if t.startswith("tup(") else None
 
 
+def opt_of(t: str) -> str:
+    return OPT.get(t) or "opt(%s)" % t
+
+
+def unopt(t: typing.Optional[str]) -> typing.Optional[str]:
+    """The base type of an optional type, None for every other type."""
+    if t is None:
+        return None
+    if t in UNOPT:
+        return UNOPT[t]
+    return t[4:-1] if t.startswith("opt(") else None
+
+
 def lean_ty(t: str) -> str:
+    if t.startswith("opt("):
+        return "Option (%s)" % lean_ty(t[4:-1])
     parts = untup(t)
     if parts is not None:
         return " × ".join("(%s)" % lean_ty(x) if " " in lean_ty(x) else lean_ty(x) for x in parts)
@@ -82,32 +111,42 @@ CONSTANTS = {
     "CompositeType.NAME_COMPONENT_SEPARATOR": (COMPOSITE, "CompositeType", "NAME_COMPONENT_SEPARATOR", "."),
     "self.NAME_COMPONENT_SEPARATOR": (COMPOSITE, "CompositeType", "NAME_COMPONENT_SEPARATOR", "."),
     "self.MAX_NAME_LENGTH": (COMPOSITE, "CompositeType", "MAX_NAME_LENGTH", 255),
+    "CompositeType.MAX_NAME_LENGTH": (COMPOSITE, "CompositeType", "MAX_NAME_LENGTH", 255),
 }
 
 FILENAME_ITEMS: typing.List[dict] = [
     {"name": "parse_decimal", "source": DEFINITION, "cls": None, "fn": "_parse_decimal", "kind": "function",
-     "params": [("text", "str")], "ret": "int", "paths": {}, "consts": []},
+     "params": [("text", "str")], "ret": "int", "paths": {}, "consts": [],
+     # found through the call graph of the constructor by its signature (str) -> int; the name is only the fallback
+     "discover": {"from": ("DSDLDefinition", "__init__"), "params": ["str"], "ret": "int"}},
     {"name": "DSDLDefinition.init", "source": DEFINITION, "cls": "DSDLDefinition", "fn": "__init__", "kind": "slice",
      "params": [("root_namespace_name", "str"), ("basename", "str"), ("parent_parts", "strlist")], "ret": "fname",
      # attribute paths the slice may read -> parameter
      "paths": {"self._root_namespace_path.name": ("root_namespace_name", "str"), "relative_path.name": ("basename", "str"),
                "relative_path.parent.parts": ("parent_parts", "strlist")},
      # path algebra (pathlib) and the cache slot: not part of the slice; nothing else may be skipped
-     "skip_targets": ["relative_path", "self._cached_type"],
+     # (both tables are the fallback: the statement `rel = <root>.name / <file>.relative_to(<root>)` is looked up by its shape)
+     "skip_targets": ["relative_path"],
      "consts": ["CompositeType.NAME_COMPONENT_SEPARATOR"],
      "calls": {"_parse_decimal": ("Gen.parse_decimal", ["str"], "int")},
+     "discover_calls": {"Gen.parse_decimal": {"from": ("DSDLDefinition", "__init__"), "params": ["str"], "ret": "int"}},
+     # the attributes behind the public properties (fallback: today's names)
+     "result_properties": ["full_name", "version", "fixed_port_id"],
      "result": ["self._name", "self._version", "self._fixed_port_id"]},
 ]
 
 COMPOSITE_ITEMS: typing.List[dict] = [
     {"name": "CompositeType.check_name_shape", "source": COMPOSITE, "cls": "CompositeType", "fn": "__init__", "kind": "guards",
      "params": [("name", "str")], "ret": "unit", "paths": {"self._name": ("name", "str")},
-     "consts": ["self.NAME_COMPONENT_SEPARATOR", "self.MAX_NAME_LENGTH"], "calls": {},
+     "consts": ["self.NAME_COMPONENT_SEPARATOR", "self.MAX_NAME_LENGTH", "CompositeType.NAME_COMPONENT_SEPARATOR", "CompositeType.MAX_NAME_LENGTH"], "calls": {},
      # the guards that read nothing but these paths / constants
-     "guard_reads": ["self._name", "self.NAME_COMPONENT_SEPARATOR", "self.MAX_NAME_LENGTH"], "expect_guards": 3},
+     "guard_reads": ["self._name", "self.NAME_COMPONENT_SEPARATOR", "self.MAX_NAME_LENGTH", "CompositeType.NAME_COMPONENT_SEPARATOR",
+                     "CompositeType.MAX_NAME_LENGTH"],
+     "path_properties": {"full_name": ("self._name", None)}},
     {"name": "CompositeType.name_components", "source": COMPOSITE, "cls": "CompositeType", "fn": "__init__", "kind": "assignment",
      "params": [("name", "str")], "ret": "strlist", "paths": {"self._name": ("name", "str")},
-     "consts": ["self.NAME_COMPONENT_SEPARATOR"], "calls": {}, "target": "self._name_components"},
+     "consts": ["self.NAME_COMPONENT_SEPARATOR", "CompositeType.NAME_COMPONENT_SEPARATOR"], "calls": {}, "target": "self._name_components",
+     "path_properties": {"full_name": ("self._name", None)}, "target_property": "name_components"},
 ]
 
 VALUE_ERROR_BUILTINS = {"ValueError", "UnicodeError", "UnicodeDecodeError", "UnicodeEncodeError", "UnicodeTranslateError"}
@@ -341,6 +380,7 @@ class Tr:
         self.calls = dict(item.get("calls", {}))
         self.types: typing.Dict[str, str] = {lname(p): t for p, t in item["params"]}   # lean local -> type
         self.narrow: typing.Set[str] = set()      # optional locals known to be not None here
+        self.lenfacts: typing.Dict[str, int] = {}  # list locals whose length is known here (from an enclosing / preceding guard)
         self.pre: typing.List[str] = []
         self.tmp = 0
 
@@ -358,6 +398,7 @@ class Tr:
         s = Tr(self.item, self.hier, self.consts, self.ctx)
         s.ret = self.ret
         s.paths, s.calls, s.types, s.narrow = self.paths, self.calls, self.types, set(self.narrow)
+        s.lenfacts = dict(self.lenfacts)
         s.tmp = self.tmp + 50
         return s
 
@@ -375,12 +416,27 @@ class Tr:
         if isinstance(a, ast.Constant) and isinstance(a.value, str):   # a quoted annotation
             s = a.value.replace(" ", "").replace("typing.", "")
             a = ast.parse(s, mode="eval").body
-        table = {"str": "str", "int": "int", "bool": "bool", "str|None": "optstr", "Optional[str]": "optstr", "int|None": "optint",
-                 "Optional[int]": "optint", "list[str]": "strlist", "List[str]": "strlist", "Version": "ver"}
+        table = {"str": "str", "int": "int", "bool": "bool", "list[str]": "strlist", "List[str]": "strlist", "Version": "ver"}
         if s in table:
             return table[s]
+        # X | None, None | X, Optional[X]
+        if isinstance(a, ast.BinOp) and isinstance(a.op, ast.BitOr):
+            for x, y in ((a.left, a.right), (a.right, a.left)):
+                if isinstance(y, ast.Constant) and y.value is None:
+                    inner = Tr.ann_type(x)
+                    if unopt(inner) is not None or inner.startswith("tup(") and "opt(" in inner:
+                        raise Untranslatable("annotation %s" % s)
+                    return opt_of(inner)
+        if isinstance(a, ast.Subscript) and ast.unparse(a.value) == "Optional":
+            inner = Tr.ann_type(a.slice)
+            if unopt(inner) is not None:
+                raise Untranslatable("annotation %s" % s)
+            return opt_of(inner)
         if isinstance(a, ast.Subscript) and ast.unparse(a.value) in ("tuple", "Tuple") and isinstance(a.slice, ast.Tuple) and a.slice.elts:
-            return tup([Tr.ann_type(x) for x in a.slice.elts])
+            comps = [Tr.ann_type(x) for x in a.slice.elts]
+            if any(c.startswith(("tup(", "opt(")) for c in comps):
+                raise Untranslatable("annotation %s (nested tuples)" % s)
+            return tup(comps)
         raise Untranslatable("annotation %s" % s)
 
     def block(self, pre: typing.List[str], value: str) -> str:
@@ -400,8 +456,8 @@ class Tr:
                 return self.paths[key]
         if isinstance(n, ast.Constant):
             if n.value is None:
-                if want in ("optstr", "optint"):
-                    return "none", want
+                if unopt(want) is not None:
+                    return "none", typing.cast(str, want)
                 raise Untranslatable("None of unknown type")
             if isinstance(n.value, bool):
                 return ("true" if n.value else "false"), "bool"
@@ -415,15 +471,15 @@ class Tr:
             if v not in self.types:
                 raise Untranslatable("unknown name %s" % n.id)
             t = self.types[v]
-            if v in self.narrow and t in UNOPT:
-                return "(%s).get!" % v, UNOPT[t]
+            if v in self.narrow and unopt(t) is not None:
+                return "(%s).get!" % v, typing.cast(str, unopt(t))
             return v, t
         if isinstance(n, ast.Attribute):
             loc = self.local_of(n)
             if loc is not None and loc in self.types:
                 t = self.types[loc]
-                if loc in self.narrow and t in UNOPT:
-                    return "(%s).get!" % loc, UNOPT[t]
+                if loc in self.narrow and unopt(t) is not None:
+                    return "(%s).get!" % loc, typing.cast(str, unopt(t))
                 return loc, t
             base, bt = self.e(n.value)
             if bt == "ver" and n.attr == "major":
@@ -437,6 +493,10 @@ class Tr:
                 return "(!%s)" % a, "bool"
             if ta == "str":
                 return "(Py.strIsEmpty %s)" % a, "bool"
+            if ta == "strlist":
+                return "(%s).isEmpty" % a, "bool"
+            if (unopt(ta) or "").startswith("tup("):   # None or a non-empty tuple, which is always true
+                return "(%s).isNone" % a, "bool"
             raise Untranslatable("not on %s" % ta)
         if isinstance(n, ast.BoolOp):
             is_and = isinstance(n.op, ast.And)
@@ -460,12 +520,19 @@ class Tr:
             left, tl = self.e(n.left)
             for op, c in zip(n.ops, n.comparators):
                 if isinstance(op, (ast.Is, ast.IsNot)) and isinstance(c, ast.Constant) and c.value is None:
-                    if tl in UNOPT:
+                    if unopt(tl) is not None:
                         parts.append("(%s).%s" % (left, "isSome" if isinstance(op, ast.IsNot) else "isNone"))
-                    elif tl in OPT and left.endswith(".get!"):   # narrowed: known not to be None
+                    elif left.endswith(".get!"):   # narrowed: known not to be None
                         parts.append("true" if isinstance(op, ast.IsNot) else "false")
                     else:
                         raise Untranslatable("comparison of %s with None" % tl)
+                    continue
+                if isinstance(op, (ast.In, ast.NotIn)) and isinstance(c, (ast.Tuple, ast.List, ast.Set)) and tl in ("nat", "int") and len(n.ops) == 1:
+                    alts = [self.e(x) for x in c.elts]
+                    if not alts or any(t not in ("nat", "int") for _, t in alts):
+                        raise Untranslatable("membership test %s" % ast.unparse(n))
+                    t = "(" + " || ".join("(%s == %s)" % ((left, v) if tl == ta else (self.as_int(left, tl), self.as_int(v, ta))) for v, ta in alts) + ")"
+                    parts.append(t if isinstance(op, ast.In) else "(!%s)" % t)
                     continue
                 r, tr = self.e(c)
                 if isinstance(op, (ast.In, ast.NotIn)):
@@ -494,12 +561,29 @@ class Tr:
             if (bt == "strlist" and isinstance(sl, ast.Slice) and sl.lower is None and sl.step is None and isinstance(sl.upper, ast.UnaryOp)
                     and isinstance(sl.upper.op, ast.USub) and isinstance(sl.upper.operand, ast.Constant) and sl.upper.operand.value == 1):
                 return "(%s).dropLast" % base, "strlist"
+            if bt == "strlist" and isinstance(sl, ast.Constant) and type(sl.value) is int and sl.value >= 0:
+                return self.bind("Py.index %s (%d : Nat)" % (base, sl.value)), "str"   # IndexError when out of range
             raise Untranslatable("subscript %s" % ast.unparse(n))
         if isinstance(n, ast.List):
-            elems = [self.e(x) for x in n.elts]
-            if any(t != "str" for _, t in elems):
-                raise Untranslatable("list of %s" % sorted({t for _, t in elems}))
-            return "[" + ", ".join(v for v, _ in elems) + "]", "strlist"
+            chunks: typing.List[str] = []
+            cur: typing.List[str] = []
+            for x in n.elts:
+                if isinstance(x, ast.Starred):     # [*l, x]: concatenation, no length needed
+                    v, t = self.e(x.value)
+                    if t != "strlist":
+                        raise Untranslatable("starred %s in a list" % t)
+                    if cur:
+                        chunks.append("[" + ", ".join(cur) + "]")
+                        cur = []
+                    chunks.append(v)
+                else:
+                    v, t = self.e(x)
+                    if t != "str":
+                        raise Untranslatable("list element of type %s" % t)
+                    cur.append(v)
+            if cur or not chunks:
+                chunks.append("[" + ", ".join(cur) + "]")
+            return (chunks[0] if len(chunks) == 1 else "(" + " ++ ".join(chunks) + ")"), "strlist"
         if isinstance(n, ast.BinOp) and isinstance(n.op, ast.Add):
             a, ta = self.e(n.left)
             b, tb = self.e(n.right)
@@ -507,8 +591,44 @@ class Tr:
                 return "(%s ++ %s)" % (a, b), "strlist"
             raise Untranslatable("+ on %s, %s" % (ta, tb))
         if isinstance(n, ast.Tuple) and n.elts:
-            elems = [self.e(x) for x in n.elts]
+            # starred elements are expanded first (their length must be known), then the components are typed one by one
+            flat: typing.List[typing.Union[ast.AST, typing.Tuple[str, str]]] = []
+            for x in n.elts:
+                if isinstance(x, ast.Starred):
+                    flat += [(u, "str") for u in self.known_elements(x.value)]
+                else:
+                    flat.append(x)
+            wants = untup(unopt(want) or want) if want is not None else None
+            if wants is None or len(wants) != len(flat):
+                wants = [None] * len(flat)   # type: ignore
+            elems = [x if isinstance(x, tuple) else self.e(x, w) for x, w in zip(flat, wants)]
+            if len(elems) < 2:
+                raise Untranslatable("tuple of %d elements" % len(elems))
             return "(" + ", ".join(v for v, _ in elems) + ")", tup([t for _, t in elems])
+        if isinstance(n, ast.IfExp):
+            c, tc = self.e(n.test)
+            if tc != "bool":
+                raise Untranslatable("condition of type %s" % tc)
+            sa, sb = self.sub(), self.sub()
+            sa.lenfacts.update(self.facts_of(n.test, True))
+            sb.lenfacts.update(self.facts_of(n.test, False))
+            a, ta = sa.e(n.body, want)
+            sb.tmp = sa.tmp
+            b, tb = sb.e(n.orelse, want)
+            self.tmp = sb.tmp
+            if ta != tb:
+                ca, cb = self.coerce(a, ta, tb), self.coerce(b, tb, ta)
+                if ca is not None:
+                    a, ta = ca, tb
+                elif cb is not None:
+                    b, tb = cb, ta
+                else:
+                    raise Untranslatable("conditional expression of types %s / %s" % (ta, tb))
+            if sa.pre or sb.pre:   # only the chosen operand is evaluated
+                return self.bind("(if %s then %s else %s)" % (c, sa.block(sa.pre, a), sb.block(sb.pre, b))), ta
+            return "(if %s then %s else %s)" % (c, a, b), ta
+        if isinstance(n, (ast.GeneratorExp, ast.ListComp)):
+            raise Untranslatable("comprehension outside any() / all()")
         if isinstance(n, ast.Call):
             return self.call(n)
         raise Untranslatable(type(n).__name__)
@@ -517,8 +637,11 @@ class Tr:
         """The term v of type t as a term of type `want` (an optional accepts its base type), or None."""
         if t == want:
             return v
-        if OPT.get(t) == want:
+        if opt_of(t) == want:
             return "(some %s)" % v
+        if unopt(want) is not None and unopt(t) is None:   # a value of a type that coerces to the base type
+            inner = self.coerce(v, t, typing.cast(str, unopt(want)))
+            return None if inner is None else "(some %s)" % inner
         a, b = untup(t), untup(want)
         if a is not None and b is not None and len(a) == len(b) and v.startswith("(") and v.endswith(")"):
             comps = split_top(v[1:-1])
@@ -527,6 +650,45 @@ class Tr:
                 if all(o is not None for o in out):
                     return "(" + ", ".join(typing.cast(typing.List[str], out)) + ")"
         return None
+
+    def known_elements(self, n: ast.AST) -> typing.List[str]:
+        """The elements of a list of str whose length is known at this point (a local guarded by `len(x) == k`): names bound by an
+        unpacking that cannot fail here.  Without such a guard the length of the resulting tuple is not known statically."""
+        if isinstance(n, ast.Name) and lname(n.id) in self.lenfacts and self.types.get(lname(n.id)) == "strlist":
+            k = self.lenfacts[lname(n.id)]
+            if k in (2, 3, 4):
+                us = [self.fresh().replace("t", "w") for _ in range(k)]
+                self.pre.append("let (%s) ← Py.unpack%d %s" % (", ".join(us), k, lname(n.id)))
+                return us
+            if k == 1:
+                return [self.bind("Py.index %s (0 : Nat)" % lname(n.id))]
+            if k == 0:
+                return []
+        raise Untranslatable("the length of %s is not known here (no enclosing `len(...) == k` guard)" % ast.unparse(n))
+
+    @staticmethod
+    def len_fact(test: ast.AST) -> typing.Optional[typing.Tuple[str, int, bool]]:
+        """(local, k, positive) for a test `len(x) == k` (positive) or `len(x) != k`."""
+        if (isinstance(test, ast.Compare) and len(test.ops) == 1 and isinstance(test.ops[0], (ast.Eq, ast.NotEq))):
+            a, b = test.left, test.comparators[0]
+            for x, y in ((a, b), (b, a)):
+                if (isinstance(x, ast.Call) and isinstance(x.func, ast.Name) and x.func.id == "len" and len(x.args) == 1 and not x.keywords
+                        and isinstance(x.args[0], ast.Name) and isinstance(y, ast.Constant) and type(y.value) is int and y.value >= 0):
+                    return lname(x.args[0].id), y.value, isinstance(test.ops[0], ast.Eq)
+        return None
+
+    def facts_of(self, test: ast.AST, branch: bool) -> typing.Dict[str, int]:
+        """Length facts that hold in the given branch of a test (conjunctions for the true branch, disjunctions for the false one)."""
+        out: typing.Dict[str, int] = {}
+        f = self.len_fact(test)
+        if f is not None and f[2] == branch:
+            out[f[0]] = f[1]
+        if isinstance(test, ast.BoolOp) and isinstance(test.op, ast.And if branch else ast.Or):
+            for v in test.values:
+                out.update(self.facts_of(v, branch))
+        if isinstance(test, ast.UnaryOp) and isinstance(test.op, ast.Not):
+            out.update(self.facts_of(test.operand, not branch))
+        return out
 
     @staticmethod
     def as_int(v: str, t: str) -> str:
@@ -575,7 +737,7 @@ class Tr:
                 if pt is None:          # a parameter the helper never computes with (e.g. the path quoted in error messages)
                     args.append("()")
                     continue
-                v, t = self.e(a, pt if pt in UNOPT else None)
+                v, t = self.e(a, pt)
                 c = self.coerce(v, t, pt)
                 if c is None:
                     raise Untranslatable("call %s: argument of type %s where %s is expected" % (fs, t, pt))
@@ -589,6 +751,27 @@ class Tr:
                 if ta == "str":
                     return "(Py.strLen %s)" % a, "nat"
                 raise Untranslatable("len of %s" % ta)
+            if f.id == "tuple" and len(n.args) == 1:
+                us = self.known_elements(n.args[0])
+                if len(us) < 2:
+                    raise Untranslatable("tuple of %d elements" % len(us))
+                return "(" + ", ".join(us) + ")", tup(["str"] * len(us))
+            if f.id in ("any", "all") and len(n.args) == 1 and isinstance(n.args[0], (ast.GeneratorExp, ast.ListComp)):
+                g = n.args[0]
+                if len(g.generators) != 1 or g.generators[0].ifs or g.generators[0].is_async or not isinstance(g.generators[0].target, ast.Name):
+                    raise Untranslatable("comprehension shape in %s" % fs)
+                it, tit = self.e(g.generators[0].iter)
+                v = lname(g.generators[0].target.id)
+                if tit != "strlist" or v in self.types:
+                    raise Untranslatable("%s over %s" % (f.id, tit))
+                s = self.sub()
+                s.types = dict(self.types)
+                s.types[v] = "str"
+                b, tb = s.e(g.elt)
+                self.tmp = s.tmp
+                if tb != "bool" or s.pre:
+                    raise Untranslatable("%s(...) with a condition that is not a pure boolean" % f.id)
+                return "((%s).%s (fun %s => %s))" % (it, f.id, v, b), "bool"
             if f.id == "list" and len(n.args) == 1:
                 a, ta = self.e(n.args[0])
                 if ta == "strlist":
@@ -632,11 +815,10 @@ class Tr:
         """Emit the assignment of the (pure) term v of type t to the local `name`."""
         old = self.types.get(name)
         if old is not None and old != t:
-            if OPT.get(t) == old:
-                v = "(some %s)" % v
-                t = old
-            else:
+            c = self.coerce(v, t, old)
+            if c is None:
                 raise Untranslatable("variable %s changes its type from %s to %s" % (name, old, t))
+            v, t = c, old
         if name in declared:
             if name not in mut:
                 raise Untranslatable("re-assignment of %s" % name)
@@ -646,6 +828,7 @@ class Tr:
             declared.add(name)
         self.types[name] = t
         self.narrow.discard(name)
+        self.lenfacts.pop(name, None)
 
     def falls_through_assigning(self, body: typing.List[ast.stmt]) -> typing.Optional[typing.Set[str]]:
         """None if the block always leaves (raise / return); otherwise the locals definitely assigned when it falls through."""
@@ -718,14 +901,14 @@ class Tr:
                 want = want or self.types.get(name)
                 v, t = self.e(value, want)
                 if want is not None and t != want:
-                    if OPT.get(t) == want:
-                        v, t = "(some %s)" % v, want
-                    else:
+                    c = self.coerce(v, t, want)
+                    if c is None:
                         raise Untranslatable("%s annotated as %s is assigned a value of type %s" % (name, want, t))
+                    v, t = c, want
                 self.flush(out, ind)
                 self.set_local(name, v, t, out, ind, declared, mut)
             elif isinstance(s, ast.Return) and s.value is not None:
-                v, t = self.e(s.value, self.ret if self.ret in UNOPT else None)
+                v, t = self.e(s.value, self.ret)
                 c = self.coerce(v, t, self.ret)
                 if c is None:
                     raise Untranslatable("return of %s where %s is expected" % (t, self.ret))
@@ -784,10 +967,37 @@ class Tr:
         for nm, u, ct in zip(names, us, comps):
             self.set_local(typing.cast(str, nm), u, ct, out, ind, declared, mut)
 
+    def truth(self, n: ast.AST) -> str:
+        """The truth value of an expression used as a condition."""
+        c, tc = self.e(n)
+        if tc == "bool":
+            return c
+        if tc == "str":
+            return "(!Py.strIsEmpty %s)" % c
+        if tc == "strlist":
+            return "(!(%s).isEmpty)" % c
+        if (unopt(tc) or "").startswith("tup("):
+            return "(%s).isSome" % c
+        raise Untranslatable("condition of type %s" % tc)
+
+    def narrow_of(self, test: ast.AST) -> typing.Optional[typing.Tuple[str, bool]]:
+        """(optional local, True) if the test being true means the local is not None, (local, False) if it means it is None."""
+        if isinstance(test, ast.UnaryOp) and isinstance(test.op, ast.Not):
+            r = self.narrow_of(test.operand)
+            return None if r is None else (r[0], not r[1])
+        if (isinstance(test, ast.Compare) and len(test.ops) == 1 and isinstance(test.ops[0], (ast.IsNot, ast.Is))
+                and isinstance(test.comparators[0], ast.Constant) and test.comparators[0].value is None):
+            loc = self.local_of(test.left)
+            if loc is not None and unopt(self.types.get(loc)) is not None:
+                return loc, isinstance(test.ops[0], ast.IsNot)
+        if isinstance(test, (ast.Name, ast.Attribute)):
+            loc = self.local_of(test)
+            if loc is not None and (unopt(self.types.get(loc)) or "").startswith("tup("):
+                return loc, True
+        return None
+
     def if_stmt(self, s: ast.If, ind, out, declared, mut) -> None:
-        c, tc = self.e(s.test)
-        if tc != "bool":
-            raise Untranslatable("condition of type %s" % tc)
+        c = self.truth(s.test)
         self.flush(out, ind)
         # variables first assigned inside the statement: declared in front of it; every path that falls through must assign them
         new = sorted((self.all_assigned(s.body) | self.all_assigned(s.orelse)) - declared)
@@ -796,32 +1006,35 @@ class Tr:
             for f in (fa, fb):
                 if f is not None and v not in f:
                     raise Untranslatable("%s may be unbound after the if statement in line %d" % (v, s.lineno))
-        narrowed = None
-        t0 = s.test
-        if (isinstance(t0, ast.Compare) and len(t0.ops) == 1 and isinstance(t0.ops[0], (ast.IsNot, ast.Is))
-                and isinstance(t0.comparators[0], ast.Constant) and t0.comparators[0].value is None):
-            loc = self.local_of(t0.left)
-            if loc is not None and self.types.get(loc) in UNOPT:
-                narrowed = (loc, isinstance(t0.ops[0], ast.IsNot))
-        saved_types = dict(self.types)
+        narrowed = self.narrow_of(s.test)
+        assigned = self.all_assigned(s.body) | self.all_assigned(s.orelse)
         decl_inner = set(declared) | set(new)
         ba: typing.List[str] = []
         bb: typing.List[str] = []
-        before = set(self.narrow)
+        before, facts_before = set(self.narrow), dict(self.lenfacts)
         if narrowed and narrowed[1]:
             self.narrow.add(narrowed[0])
+        self.lenfacts.update(self.facts_of(s.test, True))
         self.stmts(s.body, ind + "  ", ba, set(decl_inner), mut | set(new))
-        self.narrow = set(before)
+        self.narrow, self.lenfacts = set(before), dict(facts_before)
         if narrowed and not narrowed[1]:
             self.narrow.add(narrowed[0])
+        self.lenfacts.update(self.facts_of(s.test, False))
         if s.orelse:
             self.stmts(s.orelse, ind + "  ", bb, set(decl_inner), mut | set(new))
-        self.narrow = set(before) - (self.all_assigned(s.body) | self.all_assigned(s.orelse))
+        # what is known after the statement: what was known before, minus what the branches assign, plus - when one branch always
+        # leaves (raise / return) - what the test says on the other side
+        self.narrow = set(before) - assigned
+        self.lenfacts = {k: v for k, v in facts_before.items() if k not in assigned}
+        for leaves, side in ((fa is None, False), (fb is None and bool(s.orelse), True)):
+            if leaves and not (fa is None and fb is None and s.orelse):
+                if narrowed and narrowed[1] == side and narrowed[0] not in assigned:
+                    self.narrow.add(narrowed[0])
+                self.lenfacts.update({k: v for k, v in self.facts_of(s.test, side).items() if k not in assigned})
         for v in new:
             out.append("%slet mut %s : %s := default" % (ind, v, lean_ty(self.types[v])))
             declared.add(v)
             mut.add(v)
-        _ = saved_types
         out.append("%sif %s then" % (ind, c))
         out.extend(ba or ["%s  pure ()" % ind])
         if s.orelse:
@@ -856,10 +1069,10 @@ class Tr:
         v, t = sub.e(value, want)
         self.tmp = sub.tmp
         if want is not None and t != want:
-            if OPT.get(t) == want:
-                v, t = "(some %s)" % v, want
-            else:
+            c = self.coerce(v, t, want)
+            if c is None:
                 raise Untranslatable("%s annotated as %s is assigned a value of type %s" % (name, want, t))
+            v, t = c, want
         blk = "(do\n%s)" % "\n".join(ind + "    " + p for p in sub.pre + ["pure %s" % v]) if sub.pre else "(pure %s)" % v
         rhs = "Py.tryExcept %s Py.Err.isValueError (throw %s)" % (blk, handler)
         if name in declared:
@@ -926,7 +1139,100 @@ def reads_of(n: ast.AST) -> typing.Set[str]:
     return out
 
 
+def called_functions(tree: ast.Module, cls: typing.Optional[ast.ClassDef], start: ast.FunctionDef) -> typing.List[ast.FunctionDef]:
+    """Module-level functions and methods of `cls` reachable from `start` through the call graph (calls by bare name, or through
+    self / cls / the class name)."""
+    mod = {f.name: f for f in tree.body if isinstance(f, ast.FunctionDef)}
+    meth = {f.name: f for f in cls.body if isinstance(f, ast.FunctionDef)} if cls is not None else {}
+    seen: typing.Dict[int, ast.FunctionDef] = {}
+    todo = [start]
+    while todo:
+        f = todo.pop()
+        if id(f) in seen:
+            continue
+        seen[id(f)] = f
+        for n in ast.walk(f):
+            if isinstance(n, ast.Call):
+                if isinstance(n.func, ast.Name) and n.func.id in mod:
+                    todo.append(mod[n.func.id])
+                elif (isinstance(n.func, ast.Attribute) and isinstance(n.func.value, ast.Name) and cls is not None
+                      and n.func.value.id in ("self", "cls", cls.name) and n.func.attr in meth):
+                    todo.append(meth[n.func.attr])
+    return [f for f in seen.values() if f is not start]
+
+
+def discover_by_signature(tree: ast.Module, item: dict) -> typing.Optional[ast.FunctionDef]:
+    """A private helper is found through the call graph and its signature, not by its name: the one module-level function
+    reachable from `item["discover"]["from"]` whose parameters and result have the given types."""
+    d = item["discover"]
+    ccls = next((c for c in tree.body if isinstance(c, ast.ClassDef) and c.name == d["from"][0]), None)
+    start = next((f for f in (ccls.body if ccls is not None else []) if isinstance(f, ast.FunctionDef) and f.name == d["from"][1]), None)
+    if start is None:
+        return None
+    top = {id(f) for f in tree.body}
+    hits = []
+    for f in called_functions(tree, ccls, start):
+        if id(f) not in top or f.args.vararg or f.args.kwarg or f.args.kwonlyargs or f.args.defaults or f.returns is None:
+            continue
+        try:
+            sig = ([Tr.ann_type(a.annotation) if a.annotation is not None else None for a in f.args.args], Tr.ann_type(f.returns))
+        except Untranslatable:
+            continue
+        if sig == (list(d["params"]), d["ret"]):
+            hits.append(f)
+    if len(hits) > 1:
+        raise Untranslatable("several functions %s -> %s are called from %s.%s: %s" % (d["params"], d["ret"], d["from"][0], d["from"][1], sorted(f.name for f in hits)))
+    return hits[0] if hits else None
+
+
+def discover_paths(fn: ast.FunctionDef) -> typing.Optional[typing.Tuple[str, str]]:
+    """(root attribute, local) of the statement `local = <root>.name / <file>.relative_to(<root>)` of the constructor: the path of
+    the file relative to the directory that contains the root namespace directory, whatever the two are called."""
+    for s in fn.body:
+        if (isinstance(s, ast.Assign) and len(s.targets) == 1 and isinstance(s.targets[0], ast.Name) and isinstance(s.value, ast.BinOp)
+                and isinstance(s.value.op, ast.Div)):
+            l, r = s.value.left, s.value.right
+            if (isinstance(l, ast.Attribute) and l.attr == "name" and isinstance(r, ast.Call) and isinstance(r.func, ast.Attribute)
+                    and r.func.attr == "relative_to" and len(r.args) == 1 and not r.keywords and ast.unparse(r.args[0]) == ast.unparse(l.value)):
+                return ast.unparse(l.value), s.targets[0].id
+    return None
+
+
+def discover_property_attr(cls: ast.ClassDef, prop: str) -> typing.Optional[str]:
+    """`self._x` for a property whose body is `return self._x`."""
+    f = next((x for x in cls.body if isinstance(x, ast.FunctionDef) and x.name == prop and any(ast.unparse(d) == "property" for d in x.decorator_list)), None)
+    if f is None:
+        return None
+    body = [x for x in f.body if not (isinstance(x, ast.Expr) and isinstance(x.value, ast.Constant))]
+    if len(body) != 1 or not isinstance(body[0], ast.Return) or body[0].value is None:
+        return None
+    v: ast.AST = body[0].value
+    if isinstance(v, ast.Call) and isinstance(v.func, ast.Name) and v.func.id in ("list", "str", "tuple") and len(v.args) == 1 and not v.keywords:
+        v = v.args[0]      # a defensive copy / conversion of the attribute
+    if isinstance(v, ast.Attribute) and isinstance(v.value, ast.Name) and v.value.id == "self" and v.attr.startswith("_"):
+        return "self." + v.attr
+    return None
+
+
+def flatten_self_calls(cls: ast.ClassDef, fn: ast.FunctionDef, depth: int = 0) -> typing.List[ast.stmt]:
+    """The top-level statements of a method, with every statement `self._m()` (a method of the same class that takes nothing but
+    its receiver and returns nothing) replaced by that method's statements: where a constructor's checks were moved into
+    private methods, the checks are still found."""
+    out: typing.List[ast.stmt] = []
+    for s in fn.body:
+        if (depth < 4 and isinstance(s, ast.Expr) and isinstance(s.value, ast.Call) and isinstance(s.value.func, ast.Attribute)
+                and isinstance(s.value.func.value, ast.Name) and s.value.func.value.id == "self" and not s.value.args and not s.value.keywords):
+            m = next((f for f in cls.body if isinstance(f, ast.FunctionDef) and f.name == s.value.func.attr), None)
+            if (m is not None and len(m.args.args) == 1 and not m.decorator_list
+                    and not any(isinstance(x, ast.Return) and x.value is not None for x in ast.walk(m))):
+                out += flatten_self_calls(cls, m, depth + 1)
+                continue
+        out.append(s)
+    return out
+
+
 def translate_item(item: dict, repo: Path) -> typing.Tuple[typing.List[str], typing.Optional[str]]:
+    item = dict(item)
     params = " ".join("(%s : %s)" % (lname(p), lean_ty(t)) for p, t in item["params"])
     rt = lean_ty(item["ret"])
     rts = "(" + rt + ")" if " " in rt else rt
@@ -940,8 +1246,36 @@ def translate_item(item: dict, repo: Path) -> typing.Tuple[typing.List[str], typ
             if scope is None:
                 raise Untranslatable("class %s not found" % item["cls"])
         fn = next((f for f in scope.body if isinstance(f, ast.FunctionDef) and f.name == item["fn"]), None)
+        if "discover" in item:
+            fn = discover_by_signature(tree, item) or fn
         if fn is None:
             raise Untranslatable("%s not found" % item["fn"])
+        if "discover_calls" in item:   # private helpers that are separate targets: found by signature, whatever their name
+            calls = dict(item.get("calls", {}))
+            for target, spec in item["discover_calls"].items():
+                f = discover_by_signature(tree, {"discover": spec})
+                if f is not None:
+                    calls = {k: v for k, v in calls.items() if v[0] != target}
+                    calls[f.name] = (target, list(spec["params"]), spec["ret"])
+            item["calls"] = calls
+        if item["kind"] == "slice" and isinstance(scope, ast.ClassDef):
+            found = discover_paths(fn)
+            if found is not None:
+                root, rel = found
+                item["paths"] = {root + ".name": item["params"][0], rel + ".name": item["params"][1], rel + ".parent.parts": item["params"][2]}
+                item["skip_targets"] = [rel]
+            props = [discover_property_attr(scope, p) for p in item.get("result_properties", [])]
+            if props and all(props):
+                item["result"] = props
+        if isinstance(scope, ast.ClassDef):
+            for prop, (old_path, val) in item.get("path_properties", {}).items():   # attribute behind a public property
+                attr = discover_property_attr(scope, prop)
+                if attr is not None and attr != old_path:
+                    item["paths"] = {(attr if k == old_path else k): v for k, v in item["paths"].items()}
+                    item["guard_reads"] = [attr if k == old_path else k for k in item.get("guard_reads", [])]
+            tp = item.get("target_property")
+            if tp is not None:
+                item["target"] = discover_property_attr(scope, tp) or item["target"]
         lines = src.splitlines()
         text = "\n".join(lines[fn.lineno - 1: fn.end_lineno])
         span = "%s lines %d-%d sha256 %s" % (item["source"], fn.lineno, fn.end_lineno, hashlib.sha256(text.encode()).hexdigest()[:16])
@@ -953,8 +1287,14 @@ def translate_item(item: dict, repo: Path) -> typing.Tuple[typing.List[str], typ
         kind = item["kind"]
         if kind == "function":
             got = [(a.arg, Tr.ann_type(a.annotation) if a.annotation is not None else None) for a in fn.args.args]
-            if got != list(item["params"]) or fn.args.vararg or fn.args.kwarg or fn.args.kwonlyargs or fn.args.defaults:
+            if [t for _, t in got] != [t for _, t in item["params"]] or fn.args.vararg or fn.args.kwarg or fn.args.kwonlyargs or fn.args.defaults:
                 raise Untranslatable("signature %s, expected %s" % (got, item["params"]))
+            item["params"] = got      # the parameters keep the names they have in the source
+            params = " ".join("(%s : %s)" % (lname(p), lean_ty(t)) for p, t in got)
+            head = "def Gen.%s %s : Py.M %s := do" % (item["name"], params, rts)
+            ctx = Ctx(item, tree, scope)
+            tr = Tr(item, Hierarchy(repo, repo / item["source"]), consts, ctx)
+            declared = {lname(p) for p, _ in got}
             if tr.falls_through_assigning(fn.body) is not None:
                 raise Untranslatable("a path without return")
             tr.stmts(fn.body, "  ", body, declared, compute_mut(tr, fn.body))
@@ -965,6 +1305,16 @@ def translate_item(item: dict, repo: Path) -> typing.Tuple[typing.List[str], typ
             if start is None:
                 raise Untranslatable("no statement of %s reads %s" % (item["fn"], keys))
             stmts = fn.body[start:]
+            # `self._x = None` for an attribute that the slice neither returns nor reads (a cache slot): not part of the slice
+            def none_init(x: ast.stmt) -> typing.Optional[str]:
+                tg = x.targets[0] if isinstance(x, ast.Assign) and len(x.targets) == 1 else x.target if isinstance(x, ast.AnnAssign) else None
+                v = getattr(x, "value", None)
+                if (tg is not None and isinstance(tg, ast.Attribute) and isinstance(tg.value, ast.Name) and tg.value.id == "self"
+                        and isinstance(v, ast.Constant) and v.value is None):
+                    return ast.unparse(tg)
+                return None
+            loads = [ast.unparse(n) for x in stmts for n in ast.walk(x) if isinstance(n, ast.Attribute) and isinstance(n.ctx, ast.Load)]
+            stmts = [x for x in stmts if not (none_init(x) is not None and none_init(x) not in item["result"] and none_init(x) not in loads)]
             if tr.falls_through_assigning(stmts) is None:
                 raise Untranslatable("the slice never reaches its end")
             mut = compute_mut(tr, stmts)
@@ -981,15 +1331,19 @@ def translate_item(item: dict, repo: Path) -> typing.Tuple[typing.List[str], typ
             note = "/- %s (constructor slice from line %d to the end: %s)  %s -/" % (item["name"], stmts[0].lineno, ", ".join(item["result"]), span)
         elif kind == "guards":
             allowed = set(item["guard_reads"])
-            chosen = [s for s in fn.body if isinstance(s, ast.If) and not s.orelse and all(isinstance(x, ast.Raise) for x in s.body)
+            flat = flatten_self_calls(scope, fn) if isinstance(scope, ast.ClassDef) else list(fn.body)
+            chosen = [s for s in flat if isinstance(s, ast.If) and not s.orelse and all(isinstance(x, ast.Raise) for x in s.body)
                       and reads_of(s.test) and reads_of(s.test) <= allowed]
-            if len(chosen) != item["expect_guards"]:
-                raise Untranslatable("%d guards over %s found, %d expected" % (len(chosen), sorted(allowed), item["expect_guards"]))
+            # how many guards there are is not prescribed (two may be merged into one, one split into two): the bridge theorem
+            # characterises what they accept together, so a missing or a weakened guard breaks the proof, not the translation
+            if not chosen:
+                raise Untranslatable("no guard over %s found" % sorted(allowed))
             tr.stmts(chosen, "  ", body, declared, set())
             body.append("  pure ()")
             note = "/- %s (constructor guards in lines %s)  %s -/" % (item["name"], ", ".join(str(s.lineno) for s in chosen), span)
         elif kind == "assignment":
-            chosen = [s for s in fn.body if isinstance(s, ast.Assign) and len(s.targets) == 1 and ast.unparse(s.targets[0]) == item["target"]]
+            flat = flatten_self_calls(scope, fn) if isinstance(scope, ast.ClassDef) else list(fn.body)
+            chosen = [s for s in flat if isinstance(s, ast.Assign) and len(s.targets) == 1 and ast.unparse(s.targets[0]) == item["target"]]
             if len(chosen) != 1:
                 raise Untranslatable("%d assignments to %s" % (len(chosen), item["target"]))
             v, t = tr.e(chosen[0].value)
@@ -1002,7 +1356,7 @@ def translate_item(item: dict, repo: Path) -> typing.Tuple[typing.List[str], typ
             raise Untranslatable("item kind %s" % kind)
         return [note, head] + ctx.out + body + [""], None
     except (Untranslatable, OSError, SyntaxError) as ex:
-        ps = " ".join("(_%s : %s)" % (lname(p), LEAN_TY[t]) for p, t in item["params"])
+        ps = " ".join("(_%s : %s)" % (lname(p), lean_ty(t)) for p, t in item["params"])
         stub = ["def Gen.%s %s : Py.M %s :=" % (item["name"], ps, rts),
                 '  throw (.other "untranslatable: %s")' % str(ex).replace("\\", "/").replace('"', "'").replace("\n", " ")[:200], ""]
         return stub, "%s %s: %s" % (item["source"], item["name"], ex)
